@@ -232,7 +232,7 @@ func cmdOracle(prop string, seed uint64, n int, out string) {
 	all := []oracleFailure{}
 	stats := map[string]*oracleStats{}
 	for _, o := range os_ {
-		st := &oracleStats{Dist: map[string]int{}}
+		st := &oracleStats{Dist: map[string]int{}, Samples: []string{}}
 		r := newRng(seed ^ 0xABCDEF)
 		fails := o.run(r, n, st)
 		all = append(all, fails...)
